@@ -208,7 +208,7 @@ def harness_bin(profile):
     return os.path.join(harness_dir(), "target", profile, "harness")
 
 
-def run_pipeline(pid, profile, tier, seed):
+def run_pipeline(pid, profile, tier, seed, timeout=None):
     """harness | driver. Returns dict with driver verdict lines and harness stats."""
     os.makedirs(WORK, exist_ok=True)
     stats_path = os.path.join(WORK, f"{pid}_{profile}_stats.json")
@@ -219,12 +219,23 @@ def run_pipeline(pid, profile, tier, seed):
     hp = subprocess.Popen(hcmd, stdout=subprocess.PIPE, stderr=subprocess.PIPE, cwd=HARNESS)
     dp = subprocess.Popen([DRIVER], stdin=hp.stdout, stdout=subprocess.PIPE, stderr=subprocess.PIPE, text=True)
     hp.stdout.close()
-    dout, derr = dp.communicate()
+    timed_out = False
+    try:
+        dout, derr = dp.communicate(timeout=timeout)
+    except subprocess.TimeoutExpired:
+        # time-capped search: stop the producer, let the driver finish what it has, keep the verdicts so far
+        timed_out = True
+        hp.kill()
+        try:
+            dout, derr = dp.communicate(timeout=60)
+        except subprocess.TimeoutExpired:
+            dp.kill()
+            dout, derr = dp.communicate()
     herr = hp.stderr.read().decode(errors="replace")
     hrc = hp.wait()
     res = {"profile": profile, "F": [], "D": [], "U": [], "E": [], "H": {}, "summary": None,
            "harness_rc": hrc, "driver_rc": dp.returncode, "harness_err": herr[-2000:], "driver_err": derr[-2000:],
-           "wall_s": time.time() - t0, "stats": None}
+           "wall_s": time.time() - t0, "stats": None, "timed_out": timed_out}
     for line in dout.split("\n"):
         if not line:
             continue
@@ -442,6 +453,29 @@ def check(pid, tier, seed):
                 broken.append({"what": f"corr:{','.join(ops)} profile={profile}",
                                "detail": "\n".join(r["D"][:10])})
 
+    # 5b. a correspondence broke but no case failed the oracle: widen the search (DESIGN.md section 6, rule 2) —
+    # the thorough-tier stream with another seed, time-capped, looking for an input on which the oracle fails
+    widened = None
+    if (tier == "quick" and not failing and not framework_errors and not cfg.get("no_harness")
+            and any(b["what"].startswith("corr:") and "harness-build" not in b["what"] for b in broken)):
+        widened = {"cases": 0, "oracle_failures": 0, "profiles": []}
+        for profile in cfg.get("profiles", ["debug"]):
+            if not os.path.exists(harness_bin(profile)):
+                continue
+            r = run_pipeline(pid, profile, "thorough", seed + 1000, timeout=int(os.environ.get("VERIF_WIDEN_S", "150")))
+            widened["profiles"].append(profile)
+            widened["cases"] += int((r["summary"] or {}).get("lines", 0) or 0)
+            for line in r["F"]:
+                text = f"profile={profile} [widened search, thorough stream, seed {seed + 1000}] {line}"
+                hit = next((what for rx, what in known if rx.search(text)), None)
+                if hit:
+                    known_hits[hit] = known_hits.get(hit, 0) + 1
+                else:
+                    failing.append(text)
+                    widened["oracle_failures"] += 1
+            if failing:
+                break
+
     # 6. decision
     for what, cnt in sorted(known_hits.items()):
         print(f"KNOWN-FINDING: property={pid} {what} ({cnt} cases)")
@@ -502,6 +536,7 @@ def check(pid, tier, seed):
         "harness_notes": {r["profile"]: (r["stats"] or {}).get("notes", {}) for r in runs},
         "explanation": cfg.get("explanation", ""),
         "broken": broken,
+        "widened_search": widened,
     }
     if ev_res is not None:
         coverage["uncovered"] = ev_res["uncovered"]
